@@ -321,6 +321,68 @@ CHECKS["C15"] = (
     "explored (histories, checksums, frame scan), not proved; hash() treated as injective; signed zeros/NaN in the "
     "numeric point comparison not modelled")
 
+CHECKS["C19"] = (
+    "Lean 4 proof (Mathlib BigOperators) over executable models of the wrapper index algebra and of COOData + exact "
+    "correspondence + component-vs-whole search on the implementation",
+    "Theorems for arbitrary (different) nodal/edge/facet/interior counts of the components, arbitrary connectivity "
+    "tables, numbers of components/cells/quadrature points, arbitrary integrands, basis data and coefficient vectors "
+    "over any commutative ring: the per-cell table of ElementVector is the scalar table with every row expanded to "
+    "d -> dim*d+n (so gbasis' i -> (i % dim, i / dim) matches the layout) and split_indices()[n] = [dim*d+n]; "
+    "split_indices()[k] of ElementComposite read at the component's own number of a DOF (kind, a, entity) is the "
+    "wrapper's number of (kind, o_k+a, entity), it is as long as the component's DOF count, jointly injective and the "
+    "lengths add up to N (partition of 0..N-1); closed form of _deduce_bfun and: row i of the wrapper's element_dofs is "
+    "row ind of component n's own element_dofs renamed by split_indices()[n], (n, ind) = _deduce_bfun(i); "
+    "_deduce_bfun / the vector decoding / CompositeBasis stacking enumerate (component, function) exactly once; hence "
+    "interpolate(whole) = sum of the component interpolations of x[split_indices] (component-wise equal in every "
+    "field slot), v^T A u on the wrapper = sum over blocks of the separately assembled component forms on the split "
+    "vectors, and the dense matrix at (sigma_v(m, r), sigma_u(n, c)) is entry (r, c) of block (n, m) (instances for "
+    "composite and vector wrappers with the injectivity discharged); asm over lists = sum of tensors, assembly over any "
+    "partition of the cells = assembly over the mesh; COOData +, dot = dense mat-vec (also with D), fromlocal o tolocal "
+    "= id both ways, tolocal()[k][i][j] = kernel(trial j, test i, cell k) scattered to (vdofs[i][k], udofs[j][k]) for "
+    "any Nu, Nv, linear forms, inverse() = scatter of the inverse blocks and, for cell-wise decoupled numberings, the "
+    "inverse matrix; tolocal(basis=facets) keeps the global tensor; bmat offsets = cumulative widths. "
+    "*_old_counterexample theorems for the five repaired index defects.",
+    "The hypotheses `Wraps` (wrapper function j = component function dec(j) placed in its slot) are tied to gbasis by "
+    "correspondence (field arrays compared), not proved from the element code; integrand evaluation, quadrature and "
+    "mappings are C01/C08/C10's; COOData.dot only for square tensors; Form.block only comparable for like components "
+    "(known finding FC19f).")
+
+
+CHECKS["C13"] = (
+    "Lean 4 proof over an executable model of the red-green-blue / segment refinement + verified certificate "
+    "checker for the tetrahedral bisection + exact correspondence + exhaustive marked-subset search with an exact "
+    "integer geometry oracle",
+    "Theorems for ALL meshes, connectivity tables and marked sets. Triangles: the facet-marking loop reaches a "
+    "fixpoint within nfacets+1 passes and that fixpoint is the LEAST set closed under the rule that contains the "
+    "facets of the marked cells; at the fixpoint every cell is in exactly one of the five masks (none is dropped), "
+    "marked cells are red, the decision to split a facet and the vertex created on it are functions of the facet "
+    "alone (both neighbours agree), each template meets each side of the parent in the whole side or its two halves "
+    "and is an exact partition of the reference triangle over any ordered field (cover, inside, disjoint interiors, "
+    "non-degenerate), new_t is a bijection between (old cell, child) and new cell numbers, subdomain arrays list "
+    "exactly the children, new points are the facet midpoints, old points keep their index. Segments: cells, "
+    "points, index map of MeshLine1._adaptive (+ counterexample theorem for the pinned map, F6). Tetrahedra: one "
+    "bisection step halves the signed volume and covers the cell; the certificate checker checkRefinement "
+    "(bisection forest, any dimension) is proved sound: old vertices keep index and position, new cells = leaves "
+    "of bisection trees of the old cells, each exactly once, every point of an old cell lies in one of its new "
+    "cells and conversely (barycentric weights, all coordinates), leaf volumes = 2^-depth of the old cell's, "
+    "marked cells bisected, no new cell contains both ends of a bisected edge; Refines is reflexive and "
+    "transitive, so the statements persist along arbitrary histories of certified steps. The model is compared "
+    "EXACTLY with MeshTri1._adaptive (sorting, closure, templates, cell order, new_t, points; public result and "
+    "the three stages), MeshLine1._adaptive and one tetrahedral step; certificates are rebuilt from the "
+    "implementation's output on every run and checked by the verified checker (corrupted refinements are "
+    "rejected). Search: ALL 2^n marked subsets of small meshes (n<=8 quick, <=12 thorough), random subsets, "
+    "adaptive_theta, random histories of adaptive+uniform steps for MeshLine1/Tri1/Tet1/Tri2/Tet2 with an exact "
+    "oracle (no hanging vertex, facet incidence, opposite sides, no duplicate/degenerate, nestedness, measures, "
+    "disjoint children, no hole/slit, marked subdivided, old vertices, subdomain regions, retained boundaries).",
+    "Partial: termination of the tetrahedral worklist is not proved (60 s watchdog in the search); the step from "
+    "the worklist's exit condition to geometric conformity of tetrahedral meshes is not proved (checked exactly by "
+    "the search layer); triangle partition/conformity are proved on the reference cell and for the index algebra, "
+    "the transfer to physical cells is the affine map; uniform steps inside histories are covered by search only. "
+    "The tie |01|=|12|>|02| leaves a non-longest edge in slot 2 (shape quality only, documented in "
+    "C13_sort_longest). Marked arrays with repeated entries are outside the statement (MeshLine1 would create "
+    "duplicate cells).")
+
+
 NOT_YET = {}
 
 
